@@ -26,13 +26,15 @@ impl FromJson for TDate {
             OffsetDateTime::parse(&date_str, &Rfc3339)
                 .map_err(|e| anyhow!("date not in RFC3339 format: {}", e))
                 .map_err(FromJsonError::Parsing)?
-                .to_offset(UtcOffset::UTC)
+                .checked_to_offset(UtcOffset::UTC)
+                .ok_or_else(|| anyhow!("date is outside the supported range once converted to UTC"))
+                .map_err(FromJsonError::Parsing)?
                 .replace_millisecond(0)
                 // Unwrap safety: 0 is a valid millisecond.
                 .unwrap()
                 .format(&Rfc3339)
-                // Unwrap safety: it has just been successfully parsed from a RFC3339 formatted string.
-                .unwrap(),
+                .map_err(|e| anyhow!("date cannot be written in RFC3339 format: {}", e))
+                .map_err(FromJsonError::Parsing)?,
         ))
     }
 }
